@@ -19,6 +19,10 @@ package hotkey
 //@   requires @report-well-formed nonnilkeys(s.data) && sortedkeys(s.data) && distinctkeys(s.data) && distinctcounters(s.data) && len(s.data) <= int(s.capacity)
 //@   requires @new-name-new-counter forall j int :: 0 <= j && j < len(s.data) ==> s.data[j].Name != key.Name && s.data[j].Counter != key.Counter
 //@   modifies s.data, s.data[0:cap(s.data)]
+//@   proves @lemma-rank-in-range 0 <= i && i <= old(len(s.data)) && result == (i < len(s.data))
+//@   proves @lemma-prefix-kept forall j int :: 0 <= j && j < i && j < len(s.data) ==> s.data[j].Name == old(s.data[j].Name) && s.data[j].Counter == old(s.data[j].Counter)
+//@   proves @lemma-suffix-shifted forall j int :: i < j && j < len(s.data) ==> s.data[j].Name == old(s.data[j-1].Name) && s.data[j].Counter == old(s.data[j-1].Counter)
+//@   proves @lemma-inserted result ==> s.data[i].Name == key.Name && s.data[i].Counter == key.Counter
 //@   ensures @inserted-at-its-rank exists p int :: 0 <= p && p <= old(len(s.data)) && result == (p < len(s.data)) && (forall j int :: 0 <= j && j < p && j < len(s.data) ==> s.data[j].Name == old(s.data[j].Name) && s.data[j].Counter == old(s.data[j].Counter)) && (forall j int :: p < j && j < len(s.data) ==> s.data[j].Name == old(s.data[j-1].Name) && s.data[j].Counter == old(s.data[j-1].Counter)) && (result ==> s.data[p].Name == key.Name && s.data[p].Counter == key.Counter)
 //@   witness @inserted-at-its-rank p = i
 //@   ensures @counters-present nonnilkeys(s.data)
